@@ -80,6 +80,7 @@ func c15UsedDest(k *Key) bool {
 		nnInt(1, 2, -1), nnBstr(vBlobN("dest.y", 32, 32), -1),
 		nnInt(1, 3, -1), nnBstr(vBlobN("dest.d", 32, 32), -1),
 		nnInt(1, 69, -1), nnInt(0, 7, -1),
+		nnInt(0, 4, -1), nnArray([]*vNodeT{nnInt(0, 1, -1), nnInt(0, 2, -1)}, -1),
 	}, -1)
 	vAssume(k.UnmarshalCBOR(vSer(prev)) == nil)
 	return true
